@@ -1,5 +1,5 @@
 (* C16 - lemmas about the model of schema / column persistence (coq/Model/C16.v). *)
-From Coq Require Import List NArith ZArith Bool Lia.
+From Coq Require Import List NArith ZArith Bool Lia Arith.
 From Coq Require Import String.  (* string literal notation only *)
 From Orso Require Import Base.C16_Defs Gen.C16_Fields Model.C16.
 From Orso Require Base.C06_Defs Gen.C06_Types Model.C06 Model.C05.
@@ -735,3 +735,53 @@ Proof.
   intros f Hf. rewrite map_map. apply map_ext. intros c. apply restored_other. exact Hf.
 Qed.
 End Cols.
+
+(* ==================== Round 3: sessions ==================== *)
+Lemma observing_keeps_state : forall st,
+  (forall od orest, step st (SRound od orest) = Some st) /\
+  (forall o oj back, step st (SJson o oj back) = Some st) /\
+  step st SScribble = Some st.
+Proof. intros [[h refs] top]. repeat split. Qed.
+
+Lemma nth_upd : forall (A : Type) (g : A -> A) (d : A) (l : list A) o i,
+  (o < List.length l)%nat -> nth i (upd o g l) d = if Nat.eqb i o then g (nth i l d) else nth i l d.
+Proof.
+  intros A g d l. induction l as [|x l IH]; intros o i Ho; cbn [List.length] in Ho; [lia|].
+  destruct o as [|o]; destruct i as [|i]; cbn [upd nth Nat.eqb]; try reflexivity.
+  apply IH. lia.
+Qed.
+
+(* assigning an attribute of object o changes every position of the columns list that refers to o, and no other *)
+Lemma col_set_view : forall h refs top o f v,
+  (o < List.length h)%nat ->
+  s_columns (view (upd o (set f v) h, refs, top)) =
+  map (fun i => if Nat.eqb i o then set f v (nth i h dummy_column) else nth i h dummy_column) refs.
+Proof.
+  intros h refs top o f v Ho. cbn [view s_columns]. apply map_ext. intros i. apply nth_upd. exact Ho.
+Qed.
+
+Section Sessions.
+Variable parse : str -> params -> pv -> result pv.
+
+Lemma session_round_trip : forall fresh st ops st',
+  exec st ops = Some st' ->
+  Forall (persistable parse) (s_columns (view st')) -> plain_top (view st') ->
+  exists s', from_dict parse fresh (to_dict (view st')) = Ok s' /\
+             s_name s' = s_name (view st') /\ s_aliases s' = s_aliases (view st') /\ s_pk s' = s_pk (view st') /\
+             s_rcm s' = s_rcm (view st') /\ s_rce s' = s_rce (view st') /\ s_dsm s' = s_dsm (view st') /\ s_dse s' = s_dse (view st') /\
+             Forall2 same_but_untyped_type (s_columns s') (s_columns (view st')) /\
+             s_columns s' = map restored (s_columns (view st')).
+Proof. intros fresh st ops st' _ H1 H2. exact (schema_dict_round_trip parse fresh (view st') H1 H2). Qed.
+
+Lemma flatten_ignores_unlisted : forall fresh c f v,
+  ~ In f flat_kept -> to_flatcolumn parse fresh (set f v c) = to_flatcolumn parse fresh c.
+Proof.
+  intros fresh c f v H. destruct c. destruct f; try (exfalso; apply H; cbn; tauto); reflexivity.
+Qed.
+
+Lemma session_flatten_keeps : forall fresh c ops c' s,
+  fexec c ops = Some c' ->
+  c_name c' = PA (AText s) -> normalised parse c' ->
+  exists r, to_flatcolumn parse fresh c' = Ok r /\ forall f, In f flat_kept -> get f r = get f c'.
+Proof. intros fresh c ops c' s _ Hn Hc. exact (flatten_keeps parse fresh c' s Hn Hc). Qed.
+End Sessions.
